@@ -290,7 +290,17 @@ def gen_c08(rng, tier):
         # integer-typed data (counts, undecoded model output): the interpolant is still real-valued
         spec["int_data"] = (not spec["float32"]) and rng.random() < 0.12
         spec["da_coords"] = rng.random() < 0.6
-        if method == "linear" and not nd_target and rng.random() < 0.12:
+        if (method == "linear" and not spec["float32"] and not spec["int_data"] and rng.random() < 0.1):
+            # single-precision data against finely structured double-precision target_data (sigma = 1027.0000x):
+            # theta and levels become 1024 + v * 2^-14 - dyadic, so still exact in float64, but their differences
+            # lie below the float32 resolution at 1024 (2^-13); only the data are float32
+            def fine(v):
+                return [fine(x) for x in v] if isinstance(v, list) else 1024.0 + float(v) / 16384.0
+
+            spec["fine_f32"] = True
+            spec["theta"] = fine(spec["theta"])
+            spec["target"]["levels"] = fine(spec["target"]["levels"])
+        if method == "linear" and not nd_target and not spec.get("fine_f32") and rng.random() < 0.12:
             # target_data=None: the grid's own coordinate along the axis is the target data
             spec["td_none"] = True
             spec["td_lower_dim"] = False
@@ -495,6 +505,8 @@ def run_grid(spec, cnt, prop, feat):
     if f32:
         da = da.astype("float32")
         td = td.astype("float32")
+    if spec.get("fine_f32"):
+        da = da.astype("float32")
     if spec.get("int_data"):
         da = da.astype("int64")
     if spec.get("td_int") and not f32:
@@ -604,7 +616,7 @@ def run_grid(spec, cnt, prop, feat):
             got = [float(x) for x in ev[c]]
             # float32 cases only add dtype variety; their tolerance is generous (float32
             # logarithms over a short interval amplify rounding by the slope of phi)
-            tol = 1e-3 * max(1.0, float(np.abs(phi[c]).max())) if f32 else 1e-12
+            tol = 1e-3 * max(1.0, float(np.abs(phi[c]).max())) if f32 else (1e-5 if spec.get("fine_f32") else 1e-12)
             for k, (g, e) in enumerate(zip(got, exp)):
                 if lv[k] in (min(th), max(th)):
                     cnt.c["levels_at_end_values"] += 1
